@@ -25,6 +25,14 @@ fn s(rng: &mut Rng) -> String {
         let n = *rng.pick(&[200usize, 255]);
         return "z".repeat(n);
     }
+    if rng.chance(1, 25) {
+        // long and not ASCII: a text built from it is cut at byte 255, inside a character
+        // for some of the prefixes
+        let ch = *rng.pick(&["é", "€", "😀", "ß"]);
+        let prefix = "x".repeat(rng.below(4) as usize);
+        let budget = rng.range(150, 255) as usize - prefix.len();
+        return prefix + &ch.repeat(budget / ch.len());
+    }
     rng.pick(&STRS).to_string()
 }
 
@@ -410,7 +418,20 @@ impl G {
                 self.setup_channels(0, 3);
                 self.setup_consumers(40);
                 let n = self.rng.range(1, 14);
-                for _ in 0..n {
+                // one case in six ends with a not-allowed method whose rendering is long and not
+                // ASCII: the Close's reply text is cut at byte 255, for some prefixes inside a
+                // character
+                let long_text = self.rng.chance(1, 6);
+                for i in 0..n {
+                    if long_text && i + 1 == n && !(self.w.errored || self.w.dead) {
+                        let ch = self.some_open().unwrap_or(1);
+                        let c = *self.rng.pick(&["é", "€", "😀", "ß"]);
+                        let prefix = "x".repeat(self.rng.below(5) as usize);
+                        let name = prefix.clone() + &c.repeat((250 - prefix.len()) / c.len());
+                        let k = *self.rng.pick(&[1u8, 2, 3, 9, 10, 13]);
+                        self.feed(vec![FR::Method(ch, SM::Illegal(k, name))], Term::Block);
+                        break;
+                    }
                     if self.w.errored || self.w.dead {
                         break;
                     }
@@ -847,8 +868,10 @@ impl G {
             if self.w.errored || self.w.dead {
                 return;
             }
-            let term = match self.rng.below(3) {
-                0 => Term::Eof, // the server drops the socket right after CloseOk
+            let term = match self.rng.below(6) {
+                0 | 1 => Term::Eof, // the server drops the socket right after CloseOk
+                2 => Term::IoErr,   // ... abortively (reset seen in the same read)
+                3 => Term::Malformed, // ... or trailing bytes follow
                 _ => Term::Block,
             };
             let eof_later = matches!(term, Term::Block) && self.rng.boolean();
